@@ -77,7 +77,14 @@ func (t *Trace) Mutating() []int {
 func Run(bin, root string, req core.Req, inject, scratch string) (*Trace, error) {
 	tf := filepath.Join(scratch, "strace.out")
 	os.Remove(tf)
-	args := []string{"-f", "-y", "-o", tf, "-e", "trace=" + traceSet}
+	trace := traceSet
+	if inject != "" {
+		// a call injected into must be traced; calls outside the standard set (e.g. fstat) are added for this run only
+		if name := strings.SplitN(inject, ":", 2)[0]; !strings.Contains(","+traceSet+",", ","+name+",") {
+			trace += "," + name
+		}
+	}
+	args := []string{"-f", "-y", "-o", tf, "-e", "trace=" + trace}
 	if inject != "" {
 		args = append(args, "-e", "inject="+inject)
 	}
